@@ -22,8 +22,9 @@ CHECK = dict(
                  "memory(addr, nbytes) is little endian and does not wrap; reads that wrap around the "
                  "pointer width are skipped",
                  "valuations on which the expression divides by zero are skipped",
-                 "left shifts whose count lies in [2^24, 2^40) are not evaluated (they would allocate "
-                 "up to 128 GiB); counts >= 2^40 are evaluated and fail at once"],
+                 "workers run under a 0.4 GiB address-space limit: a source that builds an integer of "
+                 "2^count bits for a large run-time shift count fails with MemoryError (reported) instead "
+                 "of exhausting the machine"],
     timeout={"quick": 900, "thorough": 5400},
     technique="runtime monitoring: reference-semantics oracle on eval() of emitted source; identity oracle",
 )
@@ -31,7 +32,6 @@ CHECK = dict(
 PY_ACCEPTED = ['+', '-', '/', '%', '>>', '<<', '&', '^', '|', '*', 'parity', '==', '<<<', '>>>']
 PY_WIDTHS = [1, 2, 3, 4, 5, 7, 8, 9, 12, 15, 16, 24, 31, 32, 33, 48, 63, 64]
 HUGE_LO = 1 << 24
-HUGE_HI = 1 << 40
 
 
 def shards(tier, seed, scale):
@@ -97,11 +97,9 @@ def run_shard(params, rec):
         return refsem.Env(ids=vals, seed=seed)
 
     def shift_class(e, env):
-        """class of the '<<' counts with a non-zero shifted value among the
-        sub-terms: HUGE_LO when one lies in [2^24, 2^40) (not evaluated),
-        else HUGE_HI when one is >= 2^40, else 0"""
+        """largest '<<' count >= 2^24 with a non-zero shifted value among the
+        sub-terms (0 when there is none): evidence only"""
         worst = 0
-        mid = False
         for s in X.subterms(e):
             if s.__class__ is m2.ExprOp and s.op == '<<' and len(s.args) == 2:
                 try:
@@ -109,10 +107,9 @@ def run_shard(params, rec):
                     c = refsem.evaluate(s.args[1], env)
                 except (refsem.Undef, refsem.Unsupported):
                     continue
-                if a:
+                if a and c >= HUGE_LO:
                     worst = max(worst, c)
-                    mid = mid or HUGE_LO <= c < HUGE_HI
-        return HUGE_LO if mid else (HUGE_HI if worst >= HUGE_HI else 0)
+        return worst
 
     def py_eval(code, env):
         ns = {"memory": memory_for(env)}
@@ -127,8 +124,8 @@ def run_shard(params, rec):
             if s.op == '<<':
                 try:
                     cnt = refsem.evaluate(s.args[1], env)
-                    if cnt >= HUGE_HI:
-                        d += " count>=2^40"
+                    if cnt >= HUGE_LO:
+                        d += " count>=2^24"
                 except Exception:
                     pass
             return d
@@ -147,8 +144,6 @@ def run_shard(params, rec):
                 continue
             if any(a + nb > (1 << pw) for a, nb, pw in env.reads):
                 continue    # a read that wraps (possible in a branch not taken): not modelled
-            if HUGE_LO <= shift_class(s, env) < HUGE_HI:
-                continue    # some '<<' below would build an integer of up to 2^40 bits
             try:
                 src = TranslatorPython().from_expr(s)
                 got = py_eval(compile(src, "<c07>", "eval"), env)
@@ -219,11 +214,8 @@ def run_shard(params, rec):
                 continue
             if '<<' in ops:
                 worst = shift_class(e, env)
-                if HUGE_LO <= worst < HUGE_HI:
-                    rec.count("py:huge_shift_skipped")
-                    continue
-                if worst >= HUGE_HI:
-                    rec.count("py:huge_shift_evaluated")
+                if worst:
+                    rec.count("py:shift_count>=2^24_evaluated")
             try:
                 got = py_eval(code, env)
                 exc = None
